@@ -248,6 +248,13 @@ def _isinstance_lazy(ex, node, f):
             return VBool(True)
         if isinstance(v, VBool):
             return VBool(False)
+    if len(node.args) == 2 and isinstance(node.args[1], ast.Name) and node.args[1].id in ("dict", "list", "str", "int", "set", "tuple"):
+        v = ex.eval(node.args[0])
+        if isinstance(v, VOpaque) and getattr(v, "kind", None) is None:
+            # an untyped value: some fixed Boolean function of the value (None is an instance of none of these)
+            fn_ = z3.Function("isinstance_" + node.args[1].id, Opq, L.Bool)
+            ex.st.assume(z3.Not(fn_(OPQ_NONE)))
+            return VBool(fn_(v.t))
     raise Unsupported("isinstance() of this shape")
 
 
@@ -1471,3 +1478,14 @@ def _new_visitor(ex, args, kwargs, node):
     if args or kwargs:
         raise Unsupported("myVisitor(...) with arguments")
     return TVisitor.fresh("visitor", ex.st)
+
+
+# pysmt FNode.is_true() / is_false(): the node IS the constant (pysmt formulas are hash-consed) -- a syntactic test
+@meth("Form", "is_true", tb="TB-fml")
+def _f_is_true(ex, f, args, kwargs, node):
+    return VBool(f.t == L.f_true)
+
+
+@meth("Form", "is_false", tb="TB-fml")
+def _f_is_false(ex, f, args, kwargs, node):
+    return VBool(f.t == L.f_false)
